@@ -3,13 +3,19 @@ import mutators
 import simlib
 
 KEEP = {"init", "call", "sk", "env", "srv", "cbb", "crash"}
-FACETS = [("AcceptTrace.tla", "AcceptTrace.cfg", KEEP, None)]
+# The cookie clause of C05 ("carries a well-formed cookie echoing the client cookie") depends on the per-server
+# cookie state, which is the Cookie facet (C17): its delivery rule is judged here as well.
+CK_KEEP = {"init", "call", "adv", "sk", "env", "cbb", "crash"}
+FACETS = [("AcceptTrace.tla", "AcceptTrace.cfg", KEEP, None), ("CookieTrace.tla", "CookieTrace.cfg", CK_KEEP, None)]
+LABELS = ("c05.", "c17.response_failing_cookie_checks_delivered")
 
 
 def run(ctx):
+    # server cookie behaviours x source-address changes (cookie-less and wrong-cookie replies from a supporting server)
+    ck = {"module": "Gen_C17.tla", "cfg": "Gen_C17_accept.cfg", "name": "cookie"}
     if ctx.quick:
-        gens = [{"module": "Gen_C05.tla", "cfg": "Gen_C05_quick.cfg", "name": "bfs"}]
+        gens = [{"module": "Gen_C05.tla", "cfg": "Gen_C05_quick.cfg", "name": "bfs"}, ck]
     else:
         gens = [{"module": "Gen_C05.tla", "cfg": "Gen_C05_thorough.cfg", "name": "bfs"},
-                {"module": "Gen_C05.tla", "cfg": "Gen_C05_sim.cfg", "name": "sim", "simulate": 2000, "depth": 14}]
-    simlib.engine_check(ctx, gens, FACETS, labels=("c05.",), selftests=mutators.ACCEPT)
+                {"module": "Gen_C05.tla", "cfg": "Gen_C05_sim.cfg", "name": "sim", "simulate": 2000, "depth": 14}, ck]
+    simlib.engine_check(ctx, gens, FACETS, labels=LABELS, selftests=mutators.ACCEPT)
